@@ -59,7 +59,8 @@ theorem related (cfg : Cfg) (strict : Bool) {h : List Input} {v : View} {t : Lis
         (`connect` once per accepted namespace, `connect_error` once per refusal),
       * returns normally iff every requested namespace was accepted — then `namespaces` is exactly
         the accepted map and `connected` is set,
-      * and otherwise raises `ConnectionError` and leaves the client fully disconnected. -/
+      * and otherwise raises `ConnectionError` and leaves the client fully disconnected.
+    (The conformant window contains no loss of the transport and no DISCONNECT — regions F8 / F8b.) -/
 theorem wait_all (cfg : Cfg) {h : List Input} {v : View} {t : List Note}
     (hs : specRun false View.down h = some (v, t)) (hup : v.up = false)
     (nss : List Ns) (auth : Auth) (es : Str) (reacts : List (List Ev)) (hne : nss ≠ [])
@@ -183,23 +184,23 @@ theorem connect_handler_once (cfg : Cfg) (c : Cli) (ns : Option Ns) (data : Opti
   | none => rfl
   | some r => rfl
 
-/-- **C08.connect_handler_once / disconnect_once**, histories — along every conformant history the
+/-- **C08.connect_handler_once / disconnect_once**, histories (`_partial`: inside `specRun`) — along every conformant history the
     sequence of `connect`, `connect_error` and `disconnect` notifications the application sees
     is exactly the sequence of acceptances, refusals and endings on the server's side: one
     `connect` per accepted namespace, one `disconnect` per accepted namespace that ends —
     whichever of server DISCONNECT (of one namespace or, one by one, of all), transport loss,
     engine.io CLOSE or the client's `disconnect()` ends it, in any order — and no other. -/
-theorem notifications (cfg : Cfg) (strict : Bool) {h : List Input} {v : View} {t : List Note}
+theorem notifications_partial (cfg : Cfg) (strict : Bool) {h : List Input} {v : View} {t : List Note}
     (hs : specRun strict View.down h = some (v, t)) :
     notes (run cfg init h).2 = t := by
   obtain ⟨q, _, hn⟩ := related cfg strict hs
   exact hn
 
-/-- **C08.disconnect_once** — in every history in which each `connect(wait=True)` was fully accepted
+/-- **C08.disconnect_once** (`_partial`: inside `specRun`) — in every history in which each `connect(wait=True)` was fully accepted
     (`strict`), for every namespace the number of `connect` notifications equals the number of
     `disconnect` notifications plus one if the namespace is still connected: every namespace that
     was connected gets exactly one disconnect notification when it ends, never two, never none. -/
-theorem disconnect_once (cfg : Cfg) {h : List Input} {v : View} {t : List Note}
+theorem disconnect_once_partial (cfg : Cfg) {h : List Input} {v : View} {t : List Note}
     (hs : specRun true View.down h = some (v, t)) (n : Ns) :
     (notes (run cfg init h).2).count (.accepted n)
       = (notes (run cfg init h).2).count (.ended n)
@@ -212,10 +213,10 @@ theorem disconnect_once (cfg : Cfg) {h : List Input} {v : View} {t : List Note}
   simp only [ind] at h0
   omega
 
-/-- **C08.reset** — once the connection is over (however it ended) nothing of it is left: no
+/-- **C08.reset** (`_partial`: inside `specRun`; false in region F9, see `F9_witness`) — once the connection is over (however it ended) nothing of it is left: no
     namespace, no session id, no pending callback, no id counter, no half-received binary packet;
     in particular none of them survives into the next connection. -/
-theorem reset (cfg : Cfg) {h : List Input} {v : View} {t : List Note}
+theorem reset_partial (cfg : Cfg) {h : List Input} {v : View} {t : List Note}
     (hs : specRun false View.down h = some (v, t)) (hup : v.up = false) :
     Clean (run cfg init h).1 := by
   obtain ⟨q, hR, _⟩ := related cfg false hs
